@@ -14,6 +14,7 @@ package sorter
 //@   requires len(row) <= 1048576
 //@   modifies s.*, s.current[:], s.chunks[:], s.cleanups[:], heap(string)
 //@   ensures [C01] result == nil ==> forall(i, 0, len(row), len(old(row[i])) <= 65535)
+//@   ensures fresh(s.current) || reg(s.current) == old(reg(s.current))
 //@   loop 1 invariant iter <= len(row) && forall(i, 0, iter, len(row[i]) <= 65535)
 //@   loop 1 decreases len(row) - iter
 //@   loop 2 invariant iter <= len(row) && forall(i, 0, len(row), len(row[i]) <= 65535)
